@@ -8,6 +8,7 @@ and compared segment by segment, with labels (name stem vs value provenance).
 from __future__ import annotations
 
 import ast
+import copy
 from collections import Counter
 import re
 
@@ -172,6 +173,57 @@ def run(repo: Repo, chk: Check) -> None:
     broadcast_any(repo, chk)
     loop_counts(repo, chk)
     zero_points(repo, chk)
+    dims_verified(repo, chk)
+
+
+# --------------------------------------------------------------------------- the verifier measures the pattern the lowering programs
+def dims_verified(repo: Repo, chk: Check) -> None:
+    """the setup values are read off the stride pattern AS WRITTEN, hardware dimension by hardware dimension (`for dim in enumerate(streamer.temporal_dims):
+    upper_bounds[dim]`); a pattern with more dimensions than the streamer loses its outer loops without a word. What keeps such a pattern out is the op
+    verifier, so it has to measure the written pattern, not a folded / canonical form of it"""
+    chk.rule("C08.dims-verified", "StreamingRegionOp.verify_ rejects a stride pattern whose written temporal (spatial) dimension count exceeds the streamer's - "
+             "measured on the pattern itself, the same object the value generator indexes per hardware dimension", floor=2)
+    f, fl = flow_of(repo, chk, "snaxc/dialects/snax_stream.py", "StreamingRegionOp.verify_")
+    raises = [s for s in fl.stmts(ast.Raise) if s.reachable and s.loops]
+    pvars = set()
+    for s in raises:
+        for l in s.loops:
+            if isinstance(l, ast.For) and norm.contains(l.iter, T("self.stride_patterns")):
+                t = l.target
+                if isinstance(t, ast.Tuple) and t.elts and isinstance(t.elts[0], ast.Name):
+                    pvars.add(t.elts[0].id)
+                elif isinstance(t, ast.Name):
+                    pvars.add(t.id)
+    if not pvars:
+        raise AnalysisError(f"{f.where}: loop over self.stride_patterns with a rejecting raise not found")
+    # the other side of the agreement: the value generator reads the written pattern (no folding of its own)
+    g = repo.func(SNAX, "SNAXStreamer._generate_streamer_setup_vals")
+    chk.analysed(g.key)
+    reads_raw = any(isinstance(a_, ast.Attribute) and a_.attr == "stride_patterns" for a_ in ast.walk(g.node)) \
+        and any(isinstance(a_, ast.Attribute) and a_.attr == "upper_bounds" for a_ in ast.walk(g.node)) \
+        and not any(isinstance(c, ast.Call) and callee_name(c) in ("canonicalize", "collapse_dimensions") for c in ast.walk(g.node))
+    if not reads_raw:
+        raise AnalysisError(f"{g.where}: the value generator no longer reads the stride pattern as written; which form the verifier has to measure is not decided by this rule")
+    for kind, attr, hw in (("temporal", "temporal_strides", "temporal_dim"), ("spatial", "spatial_strides", "spatial_dim")):
+        raw = other = None
+        for s in raises:
+            for fa in s.facts:
+                if fa.kind != "atom":
+                    continue
+                m = norm.any_match([f"len($p.{attr}) > $s.{hw}", f"$s.{hw} < len($p.{attr})", f"len($p.{attr}.data) > $s.{hw}"], fa.expr)
+                if m is None:
+                    continue
+                pe = norm.primary(m["p"])
+                if isinstance(pe, ast.Name) and pe.id in pvars:
+                    raw = s
+                else:
+                    other = (s, ast.unparse(pe))
+        if raw is None and other is None:
+            raise AnalysisError(f"{f.where}: no rejection of a pattern with more {kind} dimensions than the streamer found")
+        chk.result(raw is not None, "C08.dims-verified", f"{f.key}:{kind}", (raw or other[0]).where(),  # type: ignore[index]
+                   f"a pattern with more written {kind} dimensions than the streamer is rejected",
+                   f"the {kind} dimension count is measured on `{other[1] if other else '?'}`, not on the pattern as written: a pattern whose folded form fits is accepted, "
+                   "and the value generator, which indexes the written pattern per hardware dimension, silently drops its outer loops")
 
 
 # --------------------------------------------------------------------------- the zero points are those the kernel op names
@@ -201,6 +253,43 @@ def zero_points(repo: Repo, chk: Check) -> None:
 
 
 # --------------------------------------------------------------------------- kernel loop count = number of steps of the streams
+def _inline_pattern_method(repo: Repo, v: ast.expr) -> ast.expr | None:
+    """`<pattern expr>.m(args)` where exactly one class of the repo defines a method m whose body is one return: that return expression with self and the
+    parameters (defaults included) substituted"""
+    if not (isinstance(v, ast.Call) and isinstance(v.func, ast.Attribute)):
+        return None
+    cands = [c.methods[v.func.attr] for c in repo.all_classes() if v.func.attr in c.methods]
+    if len(cands) != 1:
+        return None
+    m = cands[0].node
+    body = [b for b in m.body if not (isinstance(b, ast.Expr) and isinstance(b.value, ast.Constant))]
+    if len(body) != 1 or not isinstance(body[0], ast.Return) or body[0].value is None:
+        return None
+    params = [a.arg for a in m.args.args]
+    if not params or params[0] != "self" or m.args.vararg or m.args.kwarg:
+        return None
+    bind: dict[str, ast.expr] = {"self": v.func.value}
+    defaults = dict(zip(params[len(params) - len(m.args.defaults):], m.args.defaults))
+    for p_, a_ in zip(params[1:], v.args):
+        bind[p_] = a_
+    for k_ in v.keywords:
+        if k_.arg:
+            bind[k_.arg] = k_.value
+    for p_ in params[1:]:
+        if p_ not in bind:
+            if p_ not in defaults:
+                return None
+            bind[p_] = defaults[p_]
+
+    class R(ast.NodeTransformer):
+        def visit_Name(self, n: ast.Name) -> ast.AST:
+            return copy.deepcopy(bind[n.id]) if n.id in bind and isinstance(n.ctx, ast.Load) else n
+
+    out = R().visit(copy.deepcopy(body[0].value))
+    ast.fix_missing_locations(out)
+    return norm.canon(out)
+
+
 def loop_counts(repo: Repo, chk: Check) -> None:
     """a streamer makes prod(temporal bounds) steps. A kernel loop count that is read from the stride patterns is that product (gemmx: K*N*M from the products
     over the bounds), not one of the bounds: with a streamer configuration of several temporal dimensions the kernel would stop after the first dimension"""
@@ -213,9 +302,28 @@ def loop_counts(repo: Repo, chk: Check) -> None:
                 continue
             v = norm.primary(s.expand(s.node.args[0]))
             if not norm.contains(v, T("$p.upper_bounds")):
-                continue
+                # a method of the pattern that computes the count: `pattern.steps()` is read as its (single) return expression
+                v2 = _inline_pattern_method(repo, v)
+                if v2 is None or not norm.contains(v2, T("$p.upper_bounds")):
+                    continue
+                v = v2
             n_ += 1
-            whole = any(isinstance(c, ast.Call) and callee_name(c) in ("prod", "reduce") and norm.contains(c, T("$p.upper_bounds")) for c in ast.walk(v))
+            prods = [c for c in ast.walk(v) if isinstance(c, ast.Call) and callee_name(c) in ("prod", "reduce") and norm.contains(c, T("$p.upper_bounds"))]
+            def _always(e_: ast.expr) -> bool:
+                e_ = norm.canon(e_)
+                if isinstance(e_, ast.Constant):
+                    return bool(e_.value)
+                if isinstance(e_, ast.BoolOp):
+                    return any(_always(x_) for x_ in e_.values) if isinstance(e_.op, ast.Or) else all(_always(x_) for x_ in e_.values)
+                return False
+
+            filtered = [c for c in prods for g_ in ast.walk(c) if isinstance(g_, ast.comprehension) and any(not _always(i_) for i_ in g_.ifs)]
+            if prods and filtered:
+                chk.bad("C08.loop-count", f"{f.key}:loop-count#{n_}", s.where(),
+                        f"the loop count is `{ast.unparse(v)[:110]}`: a product over SOME of the temporal bounds (a filter drops dimensions), while every streamer makes the "
+                        "product of all its bounds - an operand re-read over a loop (temporal stride 0) makes the kernel stop early")
+                continue
+            whole = bool(prods)
             single = any(isinstance(x, ast.Subscript) and not isinstance(x.slice, ast.Slice) and (norm.match(T("$p.upper_bounds.data"), x.value) is not None or norm.match(
                 T("$p.upper_bounds"), x.value) is not None) for x in ast.walk(v))
             if not whole and not single:
